@@ -157,6 +157,35 @@ CLAIMED.update({
     ),
 })
 
+CLAIMED.update({
+    "C15": dict(
+        text=("WMO writer/parser kernels on the real code, per chunk: for every private WmoWriter::write_* the bytes written equal 8 + the declared "
+              "chunk size and the record layout equals the published one (one and two elements, all versions Classic..MoP, all field values); "
+              "MOHD counts equal list lengths and the written root tiles exactly; group back-patching; each chunk written by the writer is read "
+              "back equal by the real private WmoParser::parse_* functions and by root_parser::parse_root_file; conversion keeps all content for "
+              "all 11x11 version pairs (root and group flags)."),
+        design_ref="DESIGN.md section 4, C15; harness/wmo/NOTES.md",
+        note=("Scratch-copy rewrites (documented in cat_C15.py): the parser's HashMap<ChunkId,Chunk> chunk table is replaced by an association "
+              "list (HashMap is not executable in CBMC) and the writer's write_* are made pub(crate); tracing macros are stubbed. Ten open findings "
+              "(KF-C15-*: MOMT/MLIQ/MOHD/MOGP sizes, name offsets, skybox, bbox, BSP layout, stub group parser) are excluded by explicit "
+              "assumptions and witnessed each run. Outside: WmoParser::parse_root / parse_wmo on whole files (> 10 GB), group content beyond framing."),
+    ),
+})
+
+CLAIMED.update({
+    "C13": dict(
+        text=("M2 / skin / anim writer-parser kernels on the real code: header parse->write->parse per version class and flag class for all "
+              "other header bytes, M2Header::new/convert; every record type whose size M2Model::write hard-codes (sequence, bone, vertex, texture, "
+              "material, attachment, event, light, camera) writes exactly that many bytes (constants extracted from model.rs at run time) and "
+              "parse(write(r)) == r; skin headers/records and one-submesh / one-batch skins; anim records and sections; M2Model::write of small "
+              "models: header size, every (count, offset) pair, section order and file length against the real header parser."),
+        design_ref="DESIGN.md section 4, C13; harness/m2/NOTES.md",
+        note=("Fifteen open findings (KF-C13-*) are excluded by explicit assumptions in the main harnesses and witnessed each run. Outside: "
+              "M2Model::parse as a whole, models with texture/attachment/camera/light tracks (14 GB), preserved key-frame relocation (HashMap), "
+              "emitters, MD21 chunked files, whole-model version conversion."),
+    ),
+})
+
 NOT_APPLICABLE = {
     "C07": "rebuild is an orchestration over Archive::open + ArchiveBuilder::build through NamedTempFile/persist (file I/O and FFI); Archive::open on even one symbolic field exceeds 14 GB in CBMC; no arithmetic kernel of its own to encode (DESIGN.md section 5)",
     "C09": "quantifies over thread schedules of a rayon pool; Kani/CBMC model no concurrency and rayon's runtime is FFI (DESIGN.md section 5)",
@@ -164,7 +193,7 @@ NOT_APPLICABLE = {
     "C12": "quantifies over kill points and failing system calls of an OS process; the deciding code is tempfile + rename in the kernel/FFI (DESIGN.md section 5)",
     "C20": "property of whole process runs (argument parsing, error propagation to main, stdout); no unit a bounded model checker can drive (DESIGN.md section 5)",
 }
-for _p in ["C13", "C15"]:
+for _p in []:
     NOT_APPLICABLE.setdefault(_p, WIP)
 
 NOTES = ("Exit codes of bin/check: 0 held, 1 violation (replayed), 2 inconclusive (build error, time-out, OOM, vacuous harness, "
